@@ -128,7 +128,12 @@ CHECKS["C11"] = {
             "Stability and faithfulness are decided per run: specification-driven trees and single-point mutations of the 398 "
             "ProvToolbox files are loaded by the implementation and by the extracted model (same document or same error "
             "class), written and re-loaded (strict content equal), and compared with the independent specification reader "
-            "(never drops or invents). PROV-XML half and cross-format: see DESIGN §10 (partial).",
+            "(never drops or invents); loaded documents that are XML-expressible are written as PROV-XML and read back (cross "
+            "format). PROV-XML half: foreign texts from a specification-driven generator (any prov prefix or default namespace, "
+            "inner declarations, subtype elements, xsi:type on elements, every literal spelling, prov:other, several entities in "
+            "hadMember, re-binding bundles) and the shipped XML files are loaded, re-written in XML (force_types off/on) and in "
+            "JSON and re-loaded (strict content equal), and compared with the independent reader XmlSpec.read. The XML decoder "
+            "itself is modelled at value level only (partial).",
     "design_ref": "DESIGN.md §5 C11, §10",
     "technique": "Coq well-formedness proof of the decoder + differential correspondence on foreign trees + spec-reader oracle",
 }
